@@ -1,7 +1,14 @@
-// C13 / scalar Lagrange-1 systems on quad and triangle meshes; everything lives in c13_kit.hpp
+// C13 / discontinuous spaces (P0/Q0): no DOF lives on a patch interface, so the gates have no neighbours although
+// the communicator has several ranks - global reductions must still be global. Mass-matrix problem, same kit.
+#include <kernel/space/discontinuous/element.hpp>
 #include "c13_kit.hpp"
 
-HarnessInfo harness_info() { return {"C13", "c13_scalar", 30000000}; }
+namespace
+{
+  template<typename T_> using DG0 = Space::Discontinuous::Element<T_, Space::Discontinuous::Variant::StdPolyP<0>>;
+}
+
+HarnessInfo harness_info() { return {"C13", "c13_dg", 60000000}; }
 void harness_process_init(int argc, char** argv) { Runtime::initialize(argc, argv); }
 
 std::string harness_run()
@@ -9,7 +16,7 @@ std::string harness_run()
   sim::pthread_model_reset();
   sim::clock_reset();
   RunCfg rc;
-  rc.w = wc::draw_cfg(4, 2, false);
+  rc.w = wc::draw_cfg(3, 2, false);
   rc.solver = int(sim::cfg_weighted("solver", {4, 2, 2, 1}));
   rc.cycle = int(sim::cfg_weighted("cycle", {3, 1, 2}));
   rc.wait_order = int(sim::cfg_int("wait_order", 0, 1));
@@ -20,8 +27,8 @@ std::string harness_run()
   typedef Geometry::ConformalMesh<FEAT::Shape::Simplex<2>> Tria;
   switch(rc.w.mesh)
   {
-  case 0: case 2: Kit<Quad, Space::Lagrange1::Element>::run(rc); break;
-  default: Kit<Tria, Space::Lagrange1::Element>::run(rc); break;
+  case 0: case 2: Kit<Quad, DG0, true>::run(rc); break;
+  default: Kit<Tria, DG0, true>::run(rc); break;
   }
   sim::clock_set_read_cost(0);
   if(rc.w.layers > 1) sim::probe("multi_layer_world");
